@@ -213,6 +213,10 @@ def build_chart(game, ch, via="items"):
         m.bpms = _mk_list(QuaBpmList, QuaBpm, ch["bpms"], ["offset", "bpm", "metronome"], via)
         m.svs = _mk_list(QuaSvList, QuaSv, ch["svs"], ["offset", "multiplier"], via)
     elif game == "bms":
+        # specs that went through JSON (replay files) carry bytes as "b:..." strings
+        unb = lambda v: (v[2:].encode("ascii") if isinstance(v, str) and v.startswith("b:") else
+                         ({unb(k): unb(x) for k, x in v.items()} if isinstance(v, dict) else ([unb(x) for x in v] if isinstance(v, list) else v)))
+        ch = dict(ch, hit_x=unb(ch["hit_x"]), hold_x=unb(ch["hold_x"]), meta=unb(ch.get("meta", {})))
         from reamber.bms import BMSBpm, BMSHit, BMSHold, BMSMap
         from reamber.bms.lists import BMSBpmList
         from reamber.bms.lists.notes import BMSHitList, BMSHoldList
